@@ -288,8 +288,20 @@ class Gen:
                     out.append(("if", [(cond, sig)], None))
             elif k < 0.8 and depth < 3:
                 out.append(self.loop(depth + 1, in_fn, acc))
-            elif k < 0.9:
+            elif k < 0.88:
                 out.append(self.if_chain(lv, depth))
+            elif k < 0.96:
+                # the exit stands where a value is expected: right-hand side of a definition or an assignment
+                sig = r.choice([("break",), ("continue",)] + ([("return", ("bin", "+", I(100 * depth), I(r.randint(0, 9))))] if in_fn else []))
+                cond = self.loop_cond(lv)
+                name = self.fresh("g")
+                rhs = ("if", [(cond, sig)], I(10 + depth))
+                if r.random() < 0.5:
+                    out.append(("def", name, rhs))
+                else:
+                    out.append(("def", name, I(0)))
+                    out.append(("assign", name, rhs))
+                out.append(LOG("g%d" % depth, V(name)))
             else:
                 out.append(LOG("t%d" % depth, I(i)))
         return out
